@@ -21,12 +21,13 @@ open NV.Gen.C15
 theorem buffer_sizes :
     getDirTemppathSize = maxPathLen + 1 + maxFnameSize + 1 ∧ getDirRegexppathSize = getDirTemppathSize ∧
     renameNewfromSize = getDirTemppathSize ∧ renameNewtoSize = getDirTemppathSize ∧
-    cpNewtoSize = getDirTemppathSize ∧ edFileSize = edMaxFname ∧ 2 ≤ edMaxFname := by decide
+    cpNewtoSize = getDirTemppathSize ∧ edFileSize = edMaxFname ∧ 2 ≤ edMaxFname ∧
+    saveBinaryNameSize ≤ loadBinaryNameSize / 2 := by decide
 
 /-- every length guard the model relies on is present in the source (regenerated: function, source text of the
     comparison, number of occurrences).  A guard that is removed, or whose operator / operand changes, breaks this
     obligation. -/
-theorem buffer_guards_present : lengthGuards.all (fun g => decide (g.2.2 ≥ 1)) = true ∧ lengthGuards.length = 11 := by
+theorem buffer_guards_present : lengthGuards.all (fun g => decide (g.2.2 ≥ 1)) = true ∧ lengthGuards.length = 14 := by
   decide
 
 /-! ### get_dir -/
